@@ -7,6 +7,24 @@ TECH = "deterministic simulation with fault injection: seeded search over scenar
 
 # id -> (category, text, design_ref, note)
 CLAIMED = {
+ "C03": ("exploration",
+   "Seeded search over announcement / update / goodbye / silence histories delivered with loss, duplication, delays up to 15 s, wake latency and spurious wake-ups; every ServiceResolved event is judged against a receive model built from the packets as delivered (TTL from last arrival, TTL 0 = 1 s, cache-flush one-second rule, per-interface address tags). The model over-approximates what may be live, so a flagged event uses a record no delivery can justify. Sampling over histories; TTLs 2 s..75 min reached because virtual hours cost milliseconds.",
+   "7.3", "Trusts the independent codec and the receive model's reading of the statement; 'maybe accepted' packets (answers to someone else's browse) never raise an alarm."),
+ "C04": ("exploration",
+   "Seeded search over partitions of an instance's record set into 1-3 packets in random order and section placement, duplicates, loss and delay, with peers that answer or ignore the daemon's own follow-up queries. Demands ServiceFound in the step that accepted the PTR, ServiceResolved in the step that completed the set, and the 3 x 500 ms follow-up schedule (ms-exact in the strict profile).",
+   "7.4", "Completeness is demanded only for definitely-accepted deliveries; partition enumeration is sampled, not complete."),
+ "C05": ("exploration",
+   "Seeded search over goodbye / expiry / verify histories on the virtual clock; predicts every end-of-life moment (goodbye+1 s, PTR / last SRV / last address expiry, verify deadline) from definitely-accepted deliveries and demands ServiceRemoved at that millisecond (strict) or within the injected latency; soundness (no removal while PTR+SRV+address live) and no resurrection are checked in every profile incl. lossy ones.",
+   "7.5", "Timeliness rules abstain in lossy profiles; two behaviours tied to the crate's final-second (expires_soon) handling are listed as known findings."),
+ "C06": ("exploration",
+   "Seeded search over registration histories x 20-50 injected queries per world (all question kinds, letter cases, families, legacy unicast) on 1-3 interface hosts; each delivered query's response set is compared with the responder model: required records present, nothing outside required+allowed, TTL 120/4500, cache-flush bits, link-local addresses only, unicast/multicast destination, ID and question echo.",
+   "7.6", "Queries that coincide with the daemon's own scheduled sends, or follow a conflict rename, are not judged (counted as abstentions)."),
+ "C07": ("fault_enumeration",
+   "The probe start jitter is a simulator input and is enumerated (quick: 8-point grid incl. both ends; thorough: all 250 values) across seeded registration worlds and 6 profiles; strict profile demands probes exactly at register+jitter, +250, +500 and announcements at +750, +1750 per interface and family, with the authority section and host-name question checked; latency/stall profiles check the same as inequalities.",
+   "7.7", "Enumeration is complete over the jitter dimension only; world shapes are sampled. Stall-induced short probing and the self-conflict livelock are known findings."),
+ "C09": ("exploration",
+   "Seeded search over register / re-register / unregister (exact, other case, unknown, twice, at 5-5000 ms after register) / shutdown histories on 1-3 interfaces; status replies, goodbye content per interface and family (TTL 0, names, addresses of that link), absence where never announced, byte-identical repeat at +120 ms, and silence afterwards are read from the wire.",
+   "7.9", "'Announced on an interface' is read from the wire; services renamed by a conflict are judged by C08, not here."),
  "C19": ("exploration",
    "Seeded search over search histories (browse / resolve_hostname / stop / re-browse / receiver drop) on 1-3 interface hosts over hours to days of virtual time. Silent-network runs demand ms-exact equality between the queries on the wire (per interface and address family) and the 1,2,4...2048,3600 s schedule derived from the call history; responder runs demand that every query is covered by the schedule or a refresh/follow-up/verify allowance. Sampling, not proof; the schedule space per search is small and the cap (hour 1+) is reached in most runs.",
    "7.19", "Trusts the seam (send_to capture, virtual clock), the independent wire parser, and that the lock-step gate does not change loop behaviour; allowances in responder runs are upper bounds."),
